@@ -848,18 +848,32 @@ func ruleCur4(c *Ctx) {
 			prm := h.fn.Params[h.idx]
 			key := c.KeyAt(h.fn, "forwards the fetch position unchanged")
 			n := 0
-			for _, call := range core.Calls(h.fn) {
-				g := core.StaticCallee(call)
-				if g == nil {
-					continue
+			// calls in the function and in its closures (a captured parameter is read
+			// through its cell)
+			var scan func(f *ssa.Function, depth int)
+			scan = func(f *ssa.Function, depth int) {
+				for _, call := range core.Calls(f) {
+					g := core.StaticCallee(call)
+					if g == nil {
+						continue
+					}
+					if _, isClosure := call.Common().Value.(*ssa.MakeClosure); isClosure {
+						continue
+					}
+					for j, a := range call.Common().Args {
+						if a == ssa.Value(prm) || scpResolveCell(a) == ssa.Value(prm) {
+							n++
+							nxt = append(nxt, hop{g, j})
+						}
+					}
 				}
-				for j, a := range call.Common().Args {
-					if a == ssa.Value(prm) {
-						n++
-						nxt = append(nxt, hop{g, j})
+				if depth < 2 {
+					for _, af := range f.AnonFuncs {
+						scan(af, depth+1)
 					}
 				}
 			}
+			scan(h.fn, 0)
 			c.Touch(h.fn)
 			if n == 0 {
 				c.Bad(key, c.FnPos(h.fn), "the position parameter is not passed on as it is")
